@@ -425,6 +425,19 @@ func isBisyncControlCommand(cmd bisyncAofCommand) bool {
 	return touchesBisyncNamespace(cmd)
 }
 
+// withoutBisyncControlCommands returns the commands of a transaction the tool did not write
+// without the tool's own bookkeeping (an expired marker reaped by a foreign command, a clean-up
+// DEL) : inside a foreign transaction it is sent back no more than it is stand-alone.
+func withoutBisyncControlCommands(cmds []bisyncAofCommand) []bisyncAofCommand {
+	kept := make([]bisyncAofCommand, 0, len(cmds))
+	for _, cmd := range cmds {
+		if !isBisyncControlCommand(cmd) {
+			kept = append(kept, cmd)
+		}
+	}
+	return kept
+}
+
 func isBisyncMirroredTransaction(cmds []bisyncAofCommand) bool {
 	// GunYu 自己独占 bisync namespace，因此 mirrored transaction 的最小判定
 	// 只需要确认事务首命令写入 marker。
@@ -555,6 +568,7 @@ func (ro *RedisOutput) parseAofReplayUnits(replayQuit usync.WaitCloser, reader *
 				continue
 			}
 			bisyncTxnSuppressCounter.Add(1, ro.cfg.InputName, "miss")
+			txnCommands = withoutBisyncControlCommands(txnCommands)
 			if len(txnCommands) > 0 {
 				// 原始事务在 scheme1 中会被整体打成一个 replay unit，
 				// 从而保证提交时 marker / business / record 同事务落地。
